@@ -33,7 +33,8 @@ def _slice_call(pp, subs, world, sl, op):
     if op == 'to_many':
         return pp.Plate.transfer(sl, world['Q'][1], '2 uL')          # the held slice as the ONE side of a one-to-many transfer
     if op == 'get_volumes':
-        return (sl.get_volumes(), sl.shape, sl.size)                 # looking at a slice (and its cached geometry)
+        # looking at a slice (its cached geometry, and the texts that name it)
+        return (sl.get_volumes(), sl.shape, sl.size, repr(sl), str(sl), sl.name)
     raise env.InternalError(op)
 
 
@@ -69,7 +70,7 @@ def _held_slice_case(item):
         outcomes.append(type(e).__name__)
     if sl.plate is not plate or repr(sl.slices) != fp_slices:
         vs.append(V(f"PlateSlicer.{op1.split('_fail')[0]} | argument-mutated | slice-object,outcome={'raised' if outcomes[0] != 'ok' else 'returned'}",
-                    f"s = P[{sel}]; {op1} through s re-pointed the slice object at another plate", case))
+                    f"s = P[{sel}]; {op1} through s changed the slice object itself (the plate it points at, or its list of wells)", case))
     if e1.exact_world(world) != fp_world:
         vs.append(V(f"PlateSlicer.{op1.split('_fail')[0]} | argument-mutated | plate,outcome={'raised' if outcomes[0] != 'ok' else 'returned'}",
                     f"s = P[{sel}]; {op1} through s modified the plate (or another argument) in place", case))
@@ -150,6 +151,10 @@ def _recipe_case(ai):
 
 def recipes(col, pp, vidx):
     alphabet = [a for a in C03.full_alphabet() if a['op'] != 'add']
+    # a list-addressed slice whose wells are not written in plate order, on either side (bake names it in the step's text)
+    unsorted = ['P', "[('B', 2), ('A', 1)]"]
+    alphabet += [alphabets.T('A', unsorted, '4 uL'), alphabets.T(unsorted, 'E', '4 uL'), alphabets.T(unsorted, ['Q', "['B:1', 'A:2']"], '4 uL'),
+                 {'op': 'remove', 'obj': unsorted, 'what': 'water'}, {'op': 'fill_to', 'obj': unsorted, 'solvent': 'dmso', 'q': '300 uL'}]
     _G.update(pp=pp, vidx=vidx, alphabet=alphabet)
     res = par.pmap(_recipe_case, list(range(len(alphabet))))
     classes = set()
@@ -196,6 +201,29 @@ def _refused_bake_case(prog_idx):
     except Exception:  # noqa: a step refused when added - not this pass
         return [], ('not-built',)
     fp_world, fp = e1.exact_world(world), _recipe_fp(recipe)
+    # declaring and step-adding calls that the recipe refuses (a name that is taken, an undeclared object, a stage that is
+    # open / not open): whatever they raise, the recipe and the objects are left exactly as they were
+    nacl, water = subs['nacl'], subs['water']
+    for label, call in (('create_container', lambda: recipe.create_container(extra, '5 mL')),
+                        ('create_container', lambda: recipe.create_container(extra, '5 mL', [(water, '1 mL')])),
+                        ('create_solution', lambda: recipe.create_solution(nacl, water, name=extra, concentration='0.5 M',
+                                                                           total_quantity='2 mL')),
+                        ('uses', lambda: recipe.uses(pp.Container(extra, '1 mL'))),
+                        ('transfer', lambda: recipe.transfer(pp.Container('nobody', '1 mL', [(water, '0.5 mL')]), world[extra], '1 uL')),
+                        ('remove', lambda: recipe.remove(pp.Container('nobody', '1 mL'), water)),
+                        ('start_stage', lambda: recipe.start_stage('s')), ('end_stage', lambda: recipe.end_stage('zz'))):
+        try:
+            call()
+            return [], ('accepted-refusable', label)         # accepting it is C16's matter; the recipe is not comparable any more
+        except Exception:  # noqa
+            pass
+        after = _recipe_fp(recipe)
+        if after != fp or e1.exact_world(world) != fp_world:
+            part = [name for name, a, b in zip(('results', 'used', 'stages', 'open stage', 'locked', 'step records'), fp, after) if a != b]
+            return [V(f"Recipe.{label} | recipe-state-changed | refused-call,changed={'+'.join(part) or 'objects'}",
+                      f"[{text}], then a {label} call that the recipe refuses (name '{extra}' is taken / object not declared / stage "
+                      f"open): the refused call left the recipe changed ({', '.join(part) or 'an object handed to uses()'})", case)], \
+                ('refused-call-changed', label)
     try:
         recipe.bake()
         return [], ('baked',)           # accepted although an object is unused: C16's matter
